@@ -41,6 +41,7 @@ func propC02(c *Ctx) {
 	c.rulePositionNeedsFile("C02-POSITION-NEEDS-FILE")
 	// explicit '( )' against implicit context: the parenthesis is layout, for the core and for the scanner
 	c.ruleOpenForEveryKind("C02-OPEN-FOR-EVERY-KIND")
+	c.ruleRulesEverywhere("C02-RULES-EVERYWHERE")
 	c.rulePlaceWhenComplete("C02-PLACE-WHEN-COMPLETE")
 	c.ruleLoopsCoverAll("C02-LOOPS-COVER-ALL")
 	if m := c.E1Base(); m != nil {
@@ -1627,5 +1628,57 @@ func (c *Ctx) ruleIDSeparator(rule string) {
 	})
 	if n == 0 {
 		r.Undecided(rule, "sites", "Directive.Path returns no path variable", c.pos(f.Decl.Pos()))
+	}
+}
+
+// ---------- every schema made from a body gets the rules of the project ----------
+
+// ruleRulesEverywhere: an ENUM directive can be used in any JSight schema of the project ({enum: @name}). The schema
+// library resolves the name when the schema is loaded, so the module has to hand the project's rules to every schema
+// object it makes from the text of a body - all the constructors alike. One that forgets them refuses a document that
+// the others accept.
+func (c *Ctx) ruleRulesEverywhere(rule string) {
+	r := c.R
+	r.Rule(rule, "every function of the library that makes a JSight schema object from the text of a directive body (jschema.New with a content that is not a constant) also calls AddRule on that object (directly or through the wrapper that embeds it): Path, Query, Headers, bodies and user types all know the ENUM directives of the project", 3)
+	n := 0
+	for _, f := range c.libFns() {
+		pk := f.Pkg
+		var news []*ast.CallExpr
+		ast.Inspect(f.Decl.Body, func(nd ast.Node) bool {
+			call, ok := nd.(*ast.CallExpr)
+			if !ok || len(call.Args) < 2 {
+				return true
+			}
+			cal := callee(pk, call)
+			if cal == nil || cal.Name() != "New" || cal.Pkg() == nil || !strings.HasSuffix(cal.Pkg().Path(), "notations/jschema") {
+				return true
+			}
+			if tv := pk.TypesInfo.Types[call.Args[1]]; tv.Value != nil {
+				return true // a constant content: a scratch schema (the object builder of path variables)
+			}
+			news = append(news, call)
+			return true
+		})
+		for _, mk := range news {
+			n++
+			key := f.Name() + " | " + exprString(mk.Fun)
+			adds := false
+			ast.Inspect(f.Decl.Body, func(nd ast.Node) bool {
+				if call, ok := nd.(*ast.CallExpr); ok {
+					if cal := callee(pk, call); cal != nil && cal.Name() == "AddRule" {
+						adds = true
+					}
+				}
+				return true
+			})
+			if adds {
+				r.Ok(rule, key, "the rules of the project are added to the schema in the same function", c.pos(mk.Pos()))
+			} else {
+				r.Bad(rule, key, "a schema is made from the text of a body without the rules of the project: {enum: @name} in it is refused ('Enum is not found') although the ENUM is declared and the same schema is accepted under another directive", c.pos(mk.Pos()))
+			}
+		}
+	}
+	if n < 3 {
+		r.Undecided(rule, "sites", fmt.Sprintf("only %d constructions of a schema from a body found", n), "")
 	}
 }
